@@ -5,12 +5,15 @@
    Allow / Reject calls the framework handle saw, the framework's waiting map, and for every
    gang in the cache its GetGangSummary projection ([gview]).
 
-   clause 1  partition        every gang: pending ⊆ children, pending/waiting/bound pairwise
-                              disjoint, every child in one of them, no duplicates — checked as long
-                              as the history is protocol conformant (no Permit for a pod the cache
-                              holds as bound; see [permit_guard_viol])
+   clause 1  partition        every gang: pending, waiting and bound ⊆ children (only current members
+                              are in the sets), pairwise disjoint, every child in one of them, no
+                              duplicates — checked as long as the history is protocol conformant (no
+                              Permit for a bound pod, no Permit / PostBind for a pod that is not a
+                              child; see [permit_guard_viol])
    clause 2  release safety   Allow calls only in a Permit that returns Success, and Success only
                               when every gang of the pod's gang group exists and is valid for permit
+                              — as the code counts, and (conformant histories) counting only the
+                              waiting / bound pods that really are children of the gang
    clause 3  allow all        on Success exactly the framework-waiting pods of the group's gangs are
                               allowed; on Wait the pod is parked
    clause 4  strict reject    Unreserve / AfterPostFilter of a strict, non-exempt gang rejects exactly
@@ -38,6 +41,8 @@ Fixpoint nodupb (l : list Z) : bool :=
 Definition wpart4 (c p w b : list Z) : Prop :=
   NoDup c /\ NoDup p /\ NoDup w /\ NoDup b
   /\ (forall q, In q p -> In q c)
+  /\ (forall q, In q w -> In q c)
+  /\ (forall q, In q b -> In q c)
   /\ (forall q, In q p -> ~ In q w)
   /\ (forall q, In q p -> ~ In q b)
   /\ (forall q, In q w -> ~ In q b).
@@ -46,7 +51,7 @@ Definition part4 (c p w b : list Z) : Prop :=
 
 Definition wpart4b (c p w b : list Z) : bool :=
   nodupb c && nodupb p && nodupb w && nodupb b
-  && subsetb p c && disjointb p w && disjointb p b && disjointb w b.
+  && subsetb p c && subsetb w c && subsetb b c && disjointb p w && disjointb p b && disjointb w b.
 Definition part4b (c p w b : list Z) : bool :=
   wpart4b c p w b && forallb (fun q => memZ q p || memZ q w || memZ q b) c.
 
@@ -64,11 +69,17 @@ Definition exactly_one (x : gview) (p : Z) : Prop :=
 Definition all_part_okb (v : sview) : bool := forallb (fun kv => part_okb (snd kv)) (sv_gangs v).
 Definition all_partition_ok (v : sview) : Prop := forall g x, In (g, x) (sv_gangs v) -> partition_ok x.
 
-(* a Permit for a pod that the cache holds as bound is outside the scheduling framework's
-   protocol (an assigned pod is never scheduled again) *)
+(* outside the scheduling framework's protocol: a Permit for a pod that the cache holds as bound
+   (an assigned pod is never scheduled again), and a Permit / PostBind for a pod that is not a child
+   of its gang at that moment (never added, or deleted while its scheduling cycle was in flight) *)
 Definition permit_guard_viol (h : hdr) (prev : sview) (o : op) : bool :=
   match o with
-  | Permit p => match vget prev (gang_of h p) with Some x => memZ p (v_bound x) | None => false end
+  | Permit p => match vget prev (gang_of h p) with
+                | Some x => memZ p (v_bound x) || negb (memZ p (v_children x))
+                | None => false end
+  | PostBind p => match vget prev (gang_of h p) with
+                  | Some x => negb (memZ p (v_children x))
+                  | None => false end
   | _ => false
   end.
 
@@ -86,6 +97,16 @@ Definition validb (x : gview) : bool :=
    else if v_policy x =? pol_waiting_and_running then v_min x <=? lenZ (v_waiting x) + lenZ (v_bound x)
    else (v_min x <=? lenZ (v_waiting x)) || v_sat x).
 
+(* the same, counting only the members that really are children of the gang *)
+Definition real_members (x : gview) : gview :=
+  mkGview (v_init x) (v_strict x) (v_policy x) (v_min x) (v_group x) (v_crd x) (v_sat x) (v_children x)
+          (v_pending x) (filter (fun q => memZ q (v_children x)) (v_waiting x))
+          (filter (fun q => memZ q (v_children x)) (v_bound x)).
+Definition group_valid_real (v : sview) (grp : list Z) : Prop :=
+  forall g', In g' grp -> exists y, vget v g' = Some y /\ valid_for_permit (real_members y).
+Definition group_validb_real (v : sview) (grp : list Z) : bool :=
+  forallb (fun g' => match vget v g' with Some y => validb (real_members y) | None => false end) grp.
+
 Definition group_valid (v : sview) (grp : list Z) : Prop :=
   forall g', In g' grp -> exists y, vget v g' = Some y /\ valid_for_permit y.
 Definition group_validb (v : sview) (grp : list Z) : bool :=
@@ -102,7 +123,7 @@ Definition others (h : hdr) (grp fw : list Z) : list Z := filter (fun q => negb 
 Definition quiet (r : out) (cur : sview) (fw' : list Z) : bool :=
   is_nil (o_rejected r) && set_eqb (sv_fw cur) fw'.
 
-Definition check_permit (h : hdr) (prev : sview) (p : Z) (r : out) (cur : sview) : Z :=
+Definition check_permit (h : hdr) (strict : bool) (prev : sview) (p : Z) (r : out) (cur : sview) : Z :=
   let g := gang_of h p in
   match (if g =? 0 then None else vget cur g) with
   | None =>
@@ -114,6 +135,7 @@ Definition check_permit (h : hdr) (prev : sview) (p : Z) (r : out) (cur : sview)
       if negb (is_nil (o_rejected r)) then 4
       else if o_res r =? res_success then
         if negb (group_validb cur (v_group x)) then 2
+        else if strict && negb (group_validb_real cur (v_group x)) then 2
         else if set_eqb (o_allowed r) (members h (v_group x) (sv_fw prev))
                 && set_eqb (sv_fw cur) (others h (v_group x) (sv_fw prev)) then 0 else 3
       else if o_res r =? res_wait then
@@ -144,16 +166,16 @@ Definition check_event (prev : sview) (r : out) (cur : sview) : Z :=
   else if negb (o_res r =? 0) then 5
   else if set_eqb (sv_fw cur) (sv_fw prev) then 0 else 7.
 
-Definition check_op (h : hdr) (prev : sview) (o : op) (r : out) (cur : sview) : Z :=
+Definition check_op (h : hdr) (strict : bool) (prev : sview) (o : op) (r : out) (cur : sview) : Z :=
   match o with
-  | Permit p => check_permit h prev p r cur
+  | Permit p => check_permit h strict prev p r cur
   | Unreserve p => check_rollback h true prev p r cur
   | AfterPostFilter p => check_rollback h false prev p r cur
   | _ => check_event prev r cur
   end.
 
 Definition step_code (h : hdr) (tainted : bool) (prev : sview) (o : op) (r : out) (cur : sview) : Z :=
-  if negb tainted && negb (all_part_okb cur) then 1 else check_op h prev o r cur.
+  if negb tainted && negb (all_part_okb cur) then 1 else check_op h (negb tainted) prev o r cur.
 
 Fixpoint prop_walk (h : hdr) (tainted : bool) (prev : sview) (ops : list op) (l : list obs) : Z :=
   match ops, l with
@@ -173,13 +195,14 @@ Definition same_set (a b : list Z) : Prop := forall x, In x a <-> In x b.
 
 (* the Permit clause: released only when the whole group qualifies, then everybody is released;
    otherwise the pod waits *)
-Definition permit_holds (h : hdr) (prev : sview) (p : Z) (r : out) (cur : sview) : Prop :=
+Definition permit_holds (h : hdr) (strict : bool) (prev : sview) (p : Z) (r : out) (cur : sview) : Prop :=
   o_rejected r = [] /\
   match (if gang_of h p =? 0 then None else vget cur (gang_of h p)) with
   | None => o_allowed r = [] /\ o_res r <> res_success /\ o_res r <> res_wait
             /\ same_set (sv_fw cur) (sv_fw prev)
   | Some x =>
       (o_res r = res_success /\ group_valid cur (v_group x)
+       /\ (strict = true -> group_valid_real cur (v_group x))
        /\ same_set (o_allowed r) (members h (v_group x) (sv_fw prev))
        /\ same_set (sv_fw cur) (others h (v_group x) (sv_fw prev)))
       \/ (o_res r = res_wait /\ ~ group_valid cur (v_group x) /\ o_allowed r = []
@@ -202,9 +225,9 @@ Definition rollback_holds (h : hdr) (unres : bool) (prev : sview) (p : Z) (r : o
 Definition event_holds (prev : sview) (r : out) (cur : sview) : Prop :=
   o_allowed r = [] /\ o_rejected r = [] /\ same_set (sv_fw cur) (sv_fw prev).
 
-Definition op_holds (h : hdr) (prev : sview) (o : op) (r : out) (cur : sview) : Prop :=
+Definition op_holds (h : hdr) (strict : bool) (prev : sview) (o : op) (r : out) (cur : sview) : Prop :=
   match o with
-  | Permit p => permit_holds h prev p r cur
+  | Permit p => permit_holds h strict prev p r cur
   | Unreserve p => rollback_holds h true prev p r cur
   | AfterPostFilter p => rollback_holds h false prev p r cur
   | _ => event_holds prev r cur
@@ -216,7 +239,7 @@ Fixpoint holds_walk (h : hdr) (tainted : bool) (prev : sview) (ops : list op) (l
   | o :: ops', (r, cur) :: l' =>
       let tainted' := tainted || permit_guard_viol h prev o in
       (tainted' = false -> all_partition_ok cur)
-      /\ op_holds h prev o r cur
+      /\ op_holds h (negb tainted') prev o r cur
       /\ holds_walk h tainted' cur ops' l'
   | _, _ => False
   end.
